@@ -255,7 +255,10 @@ func c09Case(row cat.Row, word []h.Ev, upstreamMid bool) fw.Case {
 					add("subscription-value-lost", kind, fmt.Sprintf("the value attached at SubscribeWithContext is not visible in the %s callback (%s)", kind, en.Ev.Short()))
 				}
 				prefixValue := en.K == h.N && en.Item == nil && row.Has(cat.Creates)
-				if upstreamMid && en.Mid != "mid" && !row.Has(cat.NoSubscribe) && !(prefixValue && strings.Contains(row.Name, "StartWith")) {
+				// a merge ends with the context of its outer observable (the subscriber's), not with the
+				// context of whichever source happens to finish last
+				mergeTerminal := en.K != h.N && strings.Contains(row.Name, "MergeWith(")
+				if upstreamMid && en.Mid != "mid" && !row.Has(cat.NoSubscribe) && !(prefixValue && strings.Contains(row.Name, "StartWith")) && !mergeTerminal {
 					add("mid-pipeline-value-lost", kind, fmt.Sprintf("the value attached by an upstream ContextWithValue is not visible in the %s callback (%s)", kind, en.Ev.Short()))
 				}
 				if en.K == h.N && row.ValueCtx == "" && en.Item == nil && !row.Has(cat.Creation|cat.Creates) {
